@@ -253,6 +253,21 @@ def rule_r4(ctx) -> List[R.Inst]:
         key = f"zip({unparse(a)},{unparse(b)})"
         d = defs.get(a.id) if isinstance(a, ast.Name) else None
         if d is None or not (isinstance(d, ast.Call) and isinstance(d.func, ast.Attribute) and d.func.attr == "beats" and d.args):
+            # decide with the row-order typestate (A5): both operands must carry the same order tag
+            from .. import order as O
+            sites = O.analyse_function(ctx, S.SET_META + "._write_metadata")
+            mine = [x for x in (sites if not isinstance(sites, Exception) else []) if x.kind == "pairing" and x.node is z]
+            if mine:
+                tags = [t for t in mine[0].tags if t.kind != "scalar"]
+                if len(tags) == 2 and all(t.kind != "top" for t in tags):
+                    if tags[0].same_order(tags[1]):
+                        insts.append(R.ok("C03.R4", key, file, z.lineno, idiom=f"both operands {tags[0]}"))
+                    else:
+                        insts.append(R.viol("C03.R4", key, file, z.lineno,
+                                            f"'{unparse(a)}' is {tags[0]} but '{unparse(b)}' is {tags[1]}: beats and values are paired by "
+                                            f"position, so an unsorted tempo / stop list is written with its values at other rows' beats",
+                                            construct=f"zip: {tags[0]} vs {tags[1]}"))
+                    continue
             insts.append(R.undec("C03.R4", key, file, z.lineno, "first operand is not a tm.beats(...) result"))
             continue
         q = d.args[0]
